@@ -2,8 +2,10 @@ package props
 
 import (
 	"fmt"
+	"reflect"
 	"runtime/debug"
 	"testing"
+	"time"
 
 	"github.com/philpearl/plenc/plenccodec"
 	"pgregory.net/rapid"
@@ -144,6 +146,60 @@ var c14Rec = &vh.Prop[c14Case]{
 	},
 }
 
-func init() { registrars = append(registrars, c14.Register, c14Rec.Register) }
+// Exported codecs registered on an instance: JSON-any codecs and the BigQuery timestamp codec.
+type c14JSONStruct struct {
+	A int            `plenc:"1"`
+	M map[string]any `plenc:"2" json:"obj"`
+	L []any          `plenc:"3"`
+	T time.Time      `plenc:"4"`
+	P *time.Time     `plenc:"5" json:"when,omitempty"`
+	S []time.Time    `plenc:"6"`
+}
+
+type c14xCase struct {
+	BQ bool `json:"bq"`
+}
+
+var c14x = &vh.Prop[c14xCase]{
+	ID: "C14", Name: "registered-exported-codecs",
+	Run: func(c c14xCase, x *vh.Ctx) *vh.Failure {
+		p := newJSONPlenc()
+		timeType, timeLogical := "Time", "Timestamp"
+		if c.BQ {
+			p.RegisterCodec(reflect.TypeOf(time.Time{}), plenccodec.BQTimestampCodec{})
+			timeType = "FlatInt"
+		}
+		codec, err := p.CodecForType(reflect.TypeOf(c14JSONStruct{}))
+		if err != nil {
+			return vh.Fail("C14/codec-error", "%v", err)
+		}
+		got := codec.Descriptor()
+		tm := func(idx int, name string, presence bool) vh.XDesc {
+			return vh.XDesc{Index: idx, Name: name, Type: timeType, LogicalType: timeLogical, ExplicitPresence: presence}
+		}
+		want := vh.XDesc{Type: "Struct", TypeName: "c14JSONStruct", Elements: []vh.XDesc{
+			{Index: 1, Name: "A", Type: "Int"},
+			{Index: 2, Name: "obj", Type: "JSONObject"},
+			{Index: 3, Name: "L", Type: "JSONArray"},
+			tm(4, "T", false), tm(5, "when", true),
+			{Index: 6, Name: "S", Type: "Slice", Elements: []vh.XDesc{tm(0, "", false)}},
+		}}
+		x.NonTrivial()
+		return compareDescriptor(want, &got, "T")
+	},
+}
+
+func TestC14Exported(t *testing.T) {
+	st := c14x.Stats()
+	for _, bq := range []bool{false, true} {
+		c := c14xCase{BQ: bq}
+		if f := c14x.Try(c); f != nil {
+			t.Fatalf("C14/registered-exported-codecs %s", f.Error())
+		}
+		st.Record([]byte(fmt.Sprint(bq)), true, []string{fmt.Sprintf("bq:%v", bq)}, func() any { return c })
+	}
+}
+
+func init() { registrars = append(registrars, c14.Register, c14Rec.Register, c14x.Register) }
 
 func TestC14(t *testing.T) { c14.Check(t, vh.N(30000, 40000)) }
